@@ -24,7 +24,7 @@ static int clusters(const char *w, struct cl *out) {
     return n;
 }
 
-struct var { char tok[128]; int permitted; /* 1 = must decode to the word, 0 = must not */ };
+struct var { char tok[420]; int permitted; /* 1 = must decode to the word, 0 = must not */ };
 #define MAXVAR 600
 static int gen_variants(int li, unsigned idx, struct var *V) {
     const rlang *L = &RL[li];
@@ -83,6 +83,9 @@ static int gen_variants(int li, unsigned idx, struct var *V) {
               { char p[128] = ""; strcat(p, C[0].base); strcat(p, C[0].marks); size_t l = strlen(p); p[l] = *j; p[l + 1] = 0; for (int i = 1; i < n; i++) { strcat(p, C[i].base); strcat(p, C[i].marks); } ADD(p, 0); }
               if (n > 4) { char p[128] = ""; for (int i = 0; i < 4; i++) strcat(p, C[i].base); size_t l = strlen(p); p[l] = *j; p[l + 1] = 0; ADD(p, 0); }
           } }
+        /* a valid abbreviation followed by hundreds of letters the word does not have (offsets that do not fit 8 bits) */
+        if (n > 4) { static const int JL[] = { 250, 251, 252, 253, 254, 255, 256, 257, 300 };
+            for (unsigned q = 0; q < sizeof JL / sizeof *JL; q++) for (int pl = 4; pl <= 5 && pl < n; pl++) { char big[420] = ""; for (int i = 0; i < pl; i++) strcat(big, C[i].base); size_t l = strlen(big); memset(big + l, 'x', (size_t)JL[q]); big[l + (size_t)JL[q]] = 0; ADD(big, 0); } }
         /* upper case is not folded */
         { char u[128]; strcpy(u, full); if (u[0] >= 'a' && u[0] <= 'z') { u[0] -= 32; ADD(u, 0); } }
     } else {
